@@ -257,7 +257,8 @@ def c09(tier):
                 for dew in (0, 1):
                     for dns in (0, 1):
                         vals.append((1, dew, vew, dns, vns, 1, 2))
-    groups = sweep_groups(lambda v, a, r: df17(5, a, me_velocity(v[0], v[1], v[2], v[3], v[4], v[5], v[6], r.getrandbits(1), 0, 0, r.getrandbits(3))),
+    # (the CA field of the squitter varies: it has nothing to do with the velocity)
+    groups = sweep_groups(lambda v, a, r: df17(r.choice([5, 5, 0, 1, 2, 3, 4, 6, 7]), a, me_velocity(v[0], v[1], v[2], v[3], v[4], v[5], v[6], r.getrandbits(1), 0, 0, r.getrandbits(3))),
                           vals, OPTSETS[:3] if tier == 'quick' else OPTSETS, rng)
     # the same values with and without -U / -R, also when a later frame carries "no information"
     for h in range(8 if tier == 'quick' else 200):
@@ -269,7 +270,7 @@ def c09(tier):
             vew = 0 if z < 0.15 else rng.randint(1, 1023)
             vns = 0 if 0.1 < z < 0.25 else rng.randint(1, 1023)
             vr = 0 if 0.2 < z < 0.4 else rng.randint(1, 511)
-            seq.append(df17(5, a, me_velocity(st_, rng.getrandbits(1), vew, rng.getrandbits(1), vns, rng.getrandbits(1), vr)))
+            seq.append(df17(rng.getrandbits(3), a, me_velocity(st_, rng.getrandbits(1), vew, rng.getrandbits(1), vns, rng.getrandbits(1), vr)))
         o1 = rng.choice([['-U'], ['-U', '-R'], ['-R']])
         g = [reset([], slot=0), reset(o1, slot=1)]
         tag = {'pair': 'c09u'}
@@ -493,6 +494,23 @@ def c03(tier):
             for l in seq:
                 g.append(run1(l, direct=True))
             groups.append(g)
+    # payloads that NAME another aircraft of the table: the intruder address of an ACAS resolution advisory (BDS 3,0, TTI = 1, TID),
+    # the address spelled in the MB / ME field of other formats.  The row that changes is still the sender's.
+    for opts in OPTSETS:
+        a_, b_, c_ = 0x4b2001, 0x4b2002, 0x4b2003
+        g = [reset(opts)]
+        for x in (a_, b_, c_):
+            g += [run1(df11(5, x)), run1(short(5, rng.getrandbits(13), x)), run1(long_(20, enc_alt13(30000), mb17(1, 1, 1, 1), x))]
+        for tid in (b_, c_, a_, 0x4b2004):
+            for tti in (1, 2, 0):
+                rest = (tti << 26) | (tid << 2)
+                for ara, mte in ((1, 0), (0, 1), (0, 0)):
+                    g.append(run1(long_(rng.choice([20, 21]), rng.getrandbits(13) | 16, mb30(ara, mte, rest=rest), a_)))
+            g.append(run1(long_(20, enc_alt13(31000), pack([(0x20, 8), (tid, 24), (tid, 24)]), a_)))
+            g.append(run1(long_(16, enc_alt13(31000), pack([(0x30, 8), (tid, 24), (tid, 24)]), a_)))
+            g.append(run1(df17(5, a_, pack([(28, 5), (2, 3), (tid, 24), (tid, 24)]))))
+            g.append(run1(df17(5, a_, pack([(29, 5), (1, 3), (tid, 24), (tid, 24)]), df=18)))
+        groups.append(g)
     # single-bit and two-bit payloads (linearity of the CRC) for the AP formats
     g = [reset([])]
     a = 0x4b18fe
@@ -709,6 +727,15 @@ def hostile_lines(rng, tier):
     L += [list(b'ghijklmnopqrstuvwxyz!"#$%&()'), [0] * 30, list(good.encode()) + [0], [13], list(good.encode()) + [13],
           list(range(0x80, 0x100)), [0xC3], [0xE2, 0x82], [0xF0, 0x9F, 0x98], list(good[:14].encode()) + [0xFF] + list(good[14:].encode()),
           [0xC3, 0xA9] * 20, list('８Ｄ４０６２１Ｄ５８Ｃ３８２Ｄ６９０Ｃ８ＡＣ２８６３Ａ７'.encode()), [0xEF, 0xBB, 0xBF] + list(good.encode())]
+    # a byte that is not ASCII (invalid UTF-8, two- and three-byte characters) inserted at, and written over, every offset of the
+    # usual record shapes: whatever is done by position in the line must survive it
+    for base in ('@%012X%s;' % (rng.getrandbits(48), good), '*%s;' % good, good, '@%012X%s;' % (rng.getrandbits(48), short(4, enc_alt13(3000), a))):
+        bb = list(base.encode())
+        for off in range(len(bb) + 1):
+            ins = [[0xFF], [0xC3, 0xA9], [0xE2, 0x82, 0xAC], [0x80]][off % 4]
+            L.append(bb[:off] + ins + bb[off:])
+            if off < len(bb):
+                L.append(bb[:off] + ins + bb[off + 1:])
     n_rand = 100 if tier == 'quick' else 20000
     for _ in range(n_rand):
         k = rng.random()
@@ -996,6 +1023,15 @@ def c10(tier):
             for mb in mbs:
                 g.append(run1(long_(20, enc_alt13(32000), mb, a)))
             groups.append(g)
+    # the threat flag follows the latest BDS 3,0 reply: set, cleared, set again (gate open); untouched while the gate is closed
+    for opts in OPTSETS:
+        for ca in (5, 0):
+            a = 0x3cc000 + ca + 16 * OPTSETS.index(opts)
+            g = [reset(opts), run1(df11(ca, a))]
+            for ara, mte in ((1, 0), (0, 0), (0, 1), (0, 0), (1, 1), (0, 0), (0, 0)):
+                g.append(run1(long_(rng.choice([20, 21]), rng.getrandbits(13) | 16, mb30(ara, mte, rest=rng.getrandbits(28)), a)))
+                g.append(run1(short(4, enc_alt13(12000), a)))
+            groups.append(g)
     firsts = [mb20(callsign_codes('FIRST1')), mb30(1, 0), mb30(0, 1), mb17(1, 1, 1, 1), mb40(2000, 2001, 2132), mb50(40, 300, 220, 5, 215),
               mb50(-40, 300, 220, -5, 215), mb60(500, 280, 190, -20, -21), pack([(0x10, 8), (0, 48)])]
     for opts in OPTSETS:
@@ -1096,6 +1132,21 @@ def c08(tier):
         if k % 5 == 0:
             g.append(run1(mk((0, p3[1]), 1 - first_odd)))   # a zero CPR field counts as not received
             g.append(run1(mk(p2, 1 - first_odd)))
+        if k % 4 == 1:
+            # the same half again (hovering / slow target: identical CPR fields), right away and after the window has passed:
+            # a repeat is a reception like any other - it re-stamps its slot and is paired with the other one
+            g.append(run1(mk(p3, first_odd)))
+            d3 = delays[(k // 8) % len(delays)]
+            if d3:
+                g.append(tick(d3))
+            g.append(run1(mk(p2, 1 - first_odd)))
+            g.append(run1(mk(p3, first_odd)))
+        if k % 4 == 2:
+            # a jump: the next pair is somewhere else entirely (the position shown is that of the latest pair, however far away)
+            lat2 = max(-86.0, min(86.0, lat + rng.choice([-1, 1]) * rng.uniform(1.5, 40)))
+            lon2 = ((lon + rng.uniform(-170, 170) + 180) % 360) - 180
+            q1, q2 = cpr_encode(lat2, lon2, first_odd), cpr_encode(lat2, lon2, 1 - first_odd)
+            g += [run1(mk(q1, first_odd)), run1(mk(q2, 1 - first_odd)), run1(mk(q1, first_odd))]
         groups.append(g)
     # exact geometries for the distance column: lon = 90 deg is exactly representable in zones 59/58
     for j, (lat, obs) in enumerate([(5.0, '1,90'), (5.0, '-7.5, 90'), (-3.0, '10,-90'), (7.0, '0,-90'), (5.0, '90,0'), (-5.0, '-90,123')]):
@@ -1111,6 +1162,7 @@ def c08(tier):
                 'antimeridian, prime meridian, |lat| up to 86.99, %d random; both parities first; second frame displaced by < 0.004 deg; delays '
                 '{0,3,9,9.9,10,10.1,11,60} s between the frames (stamp shifting); a third frame; zero CPR fields; velocity / DF4 frames interleaved; '
                 'frames whose altitude field does not decode (not available, below -25 ft, Q=0) in the first / second / third / all positions; '
+                'identical halves received again (right away, after the window); jumps of 1.5..40 deg between consecutive pairs; '
                 '-U on/off; observers none / "90,0" / "-90, 0" / " 90 , 0 " / general, and exact same-meridian / opposite-meridian geometries. '
                 'Non-trivial = airborne-position frame arriving when the other parity slot is filled and the verdict (decode/keep) is determined'
                 % ('all 58' if tier == 'thorough' else '10', 20 if tier == 'quick' else 3000))
@@ -1482,6 +1534,30 @@ def c12(tier):
                 g = [reset(['-d', str(D)] + opts), run1(df11(5, a)), tick((D - 1) * 1000), run1(fr), tick(2000),
                      runn([rng.choice(nine_frames(b, rng)) for _ in range(13)]), runn([df11(5, b)])]
                 groups.append(g)
+    # large tables: 12..40 rows overdue at once, then 12..14 frames of one aircraft: all the others are gone (the bound of 12
+    # frames does not grow with the table)
+    for k, nrows in enumerate((12, 13, 20, 40) if tier == 'quick' else (11, 12, 13, 16, 20, 33, 40, 64, 100)):
+        for opts in ([], ['-U']):
+            D = (1, 60)[k % 2]
+            acs = [0x4c5000 + 64 * k + j for j in range(nrows)]
+            g = [reset(['-d', str(D)] + opts)]
+            first = []
+            for a in acs:
+                first.append(rng.choice(nine_frames(a, rng)))
+            g.append(runn(first[:10]))
+            g += [run1(l) for l in first[10:]]
+            g.append(tick((D + 1) * 1000))
+            g.append(runn([rng.choice(nine_frames(acs[0], rng)) for _ in range(12 + k % 3)]))
+            g.append(runn([df11(5, acs[0])]))
+            groups.append(g)
+    # a downlink log that cannot be written (-D /dev/full, -D into a missing directory) changes nothing about expiry
+    for dlog in ('/dev/full', os.path.join(vlib.workdir(), 'missing-dir', 'd.log')):
+        for opts in ([], ['-U']):
+            a, b = 0x4c6000 + len(groups), 0x4c6800 + len(groups)
+            g = [reset(['-d', '5', '-D', dlog] + opts), run1(df11(5, a)), runn([rng.choice(nine_frames(a, rng)) for _ in range(5)]), tick(4000),
+                 runn([rng.choice(nine_frames(b, rng)) for _ in range(13)]), tick(2000), runn([rng.choice(nine_frames(b, rng)) for _ in range(13)]),
+                 runn([df11(5, b)])]
+            groups.append(g)
     binary = vlib.build_harness('release')
     rt = realtime_crosscheck(binary)
     rep.notes.append('real-time cross-check of stamp shifting passed: %s' % rt)
@@ -1490,7 +1566,8 @@ def c12(tier):
                 '12-frame sweep is reached) replayed as multi-line reader runs separated by stamp shifts of D-1, D, D+1 s, with and without -U; '
                 '(ii) %d random schedules over every supported format with delete_after in {1,5,60,600%s}, silences on both sides of and at '
                 'the limit, runs of 1..25 frames; (iii) every format / extended-squitter kind (DF18 too) as the single frame that refreshes a row '
-                'one second before it would go stale, followed by a sweep. Judged per run: heard < delete_after ago => present; stale at run start, silent, >= 12 '
+                'one second before it would go stale, followed by a sweep; (iv) tables of 12..40 (thorough ..100) rows overdue at once; an unwritable '
+                '-D log. Judged per run: heard < delete_after ago => present; stale at run start, silent, >= 12 '
                 'accepted frames => gone; stamp restarts with every accepted frame; re-heard after a sweep => fresh row. Non-trivial = run '
                 'with an aircraft definitely stale or definitely fresh; distinct by (lines, slot)' %
                 (cfgs, nr, ',86400' if tier == 'thorough' else ''))
@@ -1539,6 +1616,21 @@ def cli_event(binary, prof, opts, lines, idx, timeout=120, keep_snaps=False, ext
 
 
 # ----------------------------------------------------------------------------------------- C16
+def dialect(rng, fr):
+    """the frame in one of the receiver dialects: bare, *...;  @<12-digit time stamp>...;  (the stamp's first digits look like any DF),
+    lower case, blanks"""
+    k = rng.randrange(6)
+    if k == 0:
+        return '*%s;' % fr
+    if k == 1:
+        return '@%s%010X%s;' % (rng.choice(['00', '07', '20', '28', '5D', '8D', '8F', 'A0', 'A8', 'FF']), rng.getrandbits(40), fr)
+    if k == 2:
+        return '@%012x%s;\r' % (rng.getrandbits(48), fr.lower())
+    if k == 3:
+        return '  %s  ' % fr.lower()
+    return fr
+
+
 def c16(tier):
     rep = Report('C16', tier)
     rng = random.Random(vlib.seed())
@@ -1571,7 +1663,7 @@ def c16(tier):
         pool += nine_frames(0, rng)
         g = [reset(opts + (['-U'] if len(fs) % 2 else []))]
         for _ in range(40 if tier == 'quick' else 200):
-            g.append(run1(rng.choice(pool)))
+            g.append(run1(dialect(rng, rng.choice(pool))))
         groups.append(g)
     for k in range(6 if tier == 'quick' else 60):
         a_, b_ = 0x4d1800 + k, 0x4d1900 + k
@@ -1602,8 +1694,20 @@ def c16(tier):
                 pool += nine_frames(0, rng) + [F.flip(df17(5, acs[0], me_opstatus(1)), [50]), 'zz', '8D', df11(5, acs[1], 5)[:13]]
                 for dfx in (24, 25, 30, 31, 19, 22):    # other 112-bit formats: counted under their own DF number
                     pool.append(hexs(pack([(dfx, 5), (rng.getrandbits(3), 3), (acs[2], 24)]) + bits_of(rng.getrandbits(80), 80)))
-                lines = [list(rng.choice(pool).encode()) for _ in range(rng.randrange(5, 60 if tier == 'quick' else 400))]
+                lines = [list(dialect(rng, rng.choice(pool)).encode()) for _ in range(rng.randrange(5, 60 if tier == 'quick' else 400))]
                 events.append(cli_event(binary, prof, opts, lines, len(events) + 1))
+        # a narrow table (-i without any group) and a counter line much wider than it: every one of the 32 formats, counts of 2 and 3 digits
+        for k in range(2 if tier == 'quick' else 12):
+            acs = [0x4d2800 + rng.getrandbits(8) for _ in range(3)]
+            pool = []
+            for a in acs:
+                pool += nine_frames(a, rng)
+            for dfx in range(32):
+                if dfx not in (0, 4, 5, 11, 16, 17, 18, 20, 21):
+                    # both readings of the address non-zero, so that the frame counts whichever the code uses
+                    pool.append(hexs(with_ap(pack([(dfx, 5), (rng.getrandbits(3), 3), (acs[0], 24)]) + (bits_of(rng.getrandbits(56), 56) if dfx >= 16 else []), acs[1])))
+            lines = [list(rng.choice(pool).encode()) for _ in range(rng.randrange(500, 900))]
+            events.append(cli_event(binary, prof, ['-c', '-i', 'x'] + (['-U'] if k % 2 else []), lines, len(events) + 1))
     # the counter line and the set of rows after EVERY frame (one refresh per frame with --update=-1), streams of the nine formats
     cbr = vlib.build_cli('release')
     for k in range(6 if tier == 'quick' else 60):
@@ -1613,7 +1717,7 @@ def c16(tier):
         for a in [0x4d3000 + rng.getrandbits(8) for _ in range(3)]:
             pool += nine_frames(a, rng)
         pool += nine_frames(0, rng)[:4] + ['zz', '8D']
-        lines = [list(rng.choice(pool).encode()) for _ in range(rng.randrange(10, 50))]
+        lines = [list(dialect(rng, rng.choice(pool)).encode()) if ln else list(ln.encode()) for ln in [rng.choice(pool) for _ in range(rng.randrange(10, 50))]]
         e = cli_event(cbr, 'release', opts, lines, len(events) + 1, keep_snaps=True)
         e['e'] = 'clistream'
         e['args']['U'] = '-U' in opts
@@ -1627,7 +1731,8 @@ def c16(tier):
     rep.rule = ('streams mixing all nine formats for 3-4 aircraft, address-zero frames and rejected lines, under -f subsets %s: in-process every '
                 'line is judged (frame of an unlisted format => table untouched); the real CLI is run with --update=-1 [-c] and TLC recomputes '
                 'from the input lines the expected "DFn:count" line (ascending DF, applied frames only) and the expected set of aircraft of '
-                'the last refresh; and, refresh by refresh, the counter line and the set of rows after every single frame. Non-trivial = accepted frame under a filter / CLI run with at least one applied frame' %
+                'the last refresh (lines in the receiver dialects: bare, *;, @time-stamp; whose first digits look like any DF; a narrow table with all 32 '
+                'formats and counts of several digits); and, refresh by refresh, the counter line and the set of rows after every single frame. Non-trivial = accepted frame under a filter / CLI run with at least one applied frame' %
                 ('(all 64 subsets of {4,5,11,17,20,21} and unsupported numbers)' if tier == 'thorough' else str(subsets)))
     vlib.nt_floor(rep, 100)
     return rep
@@ -1941,9 +2046,11 @@ def c18(tier):
     binary = vlib.build_cli('release')
     if tier == 'quick':
         seqs = [('refuse',), ('close',), ('frames', 'partial'), ('junk', 'refuse'), ('partial', 'frames'), ('frames', 'close', 'junk'),
-                ('refuse', 'refuse'), ('partial', 'partial', 'junk'), ('partialfin',), ('frames', 'partialfin', 'refuse'), ('partialfin', 'partialfin')]
+                ('refuse', 'refuse'), ('partial', 'partial', 'junk'), ('partialfin',), ('frames', 'partialfin', 'refuse'), ('partialfin', 'partialfin'),
+                ('long', 'refuse'), ('long', 'close')]      # a connection that outlives delete_after (-d 8), then an outage
     else:
         seqs = [s for n in (1, 2, 3) for s in itertools.product(tcp.FAULTS, repeat=n)]
+        seqs += [('long', 'refuse'), ('long', 'close'), ('long', 'refuse', 'refuse'), ('frames', 'long', 'partial'), ('long', 'junk', 'refuse')]
     events = []
     with cf.ThreadPoolExecutor(max_workers=16) as ex:
         futs = [ex.submit(tcp.run_scenario, binary, s, i + 1) for i, s in enumerate(seqs)]
@@ -1958,7 +2065,7 @@ def c18(tier):
                 'script element and the healthy one, gap after n refusals within [5n-0.5, 5n+4] s, prompt reconnect (< 4.5 s) after close/reset, '
                 'process alive, last refresh lists exactly the aircraft whose complete frames were delivered on any connection (partial lines and junk '
                 'contribute nothing and break nothing). Non-trivial = sequence with at least one fault; distinct by fault sequence' %
-                ('11 fault sequences of length 1..3' if tier == 'quick' else 'all 258 fault sequences of length <= 3 over 6 fault kinds'))
+                ('13 fault sequences of length 1..3 (two with a connection that outlives delete_after)' if tier == 'quick' else 'all 258 fault sequences of length <= 3 over 6 fault kinds and 5 with a connection that outlives delete_after'))
     vlib.nt_floor(rep, 5)
     return rep
 
@@ -2116,6 +2223,9 @@ def junk_lines(rng):
     for N in (30, 41, 63, 64, 65, 100, 128, 200, 256, 512, 1024, 4096, 65536):
         for v in (good, rec2):
             J.append(list((v + ';' + rng.choice([' ', '\t', 'x', '.']) * max(0, N - len(v) - 1) + rng.choice(['a', '0', 'beef', 'F' * 13])).encode()))
+    # bytes 0x80-0xFF whose low seven bits spell a valid record (whole line, one digit, the digits of a time stamp)
+    J += [[c | 0x80 for c in good.encode()], list(good[:-1].encode()) + [ord(good[-1]) | 0x80], [c | 0x80 for c in rec2.encode()],
+          [ord('@') | 0x80] + [c | 0x80 for c in ('%012X' % 5).encode()] + list(rec2.encode()), list(rec2[:5].encode()) + [ord(rec2[5]) | 0x80] + list(rec2[6:].encode())]
     J += [list((good + ';      <- dropped by the feeder, bad checksum').encode()), list((rec2 + '\r' + ' ' * 70 + rec2).encode()),
           list((good + '\t' * 50 + '7' * 70000).encode()), list(('@%012X' % 77 + rec2 + ';' + '-' * 40 + 'c').encode())]
     return J
@@ -2279,6 +2389,19 @@ def c19(tier):
             groups.append([{'c': 'reset', 'opts': ['-i', 'Q'] + base, 'slot': 0},
                            {'c': 'reset', 'opts': (['-i', 'Q'] if name != 'i' else []) + base + extra, 'slot': 1},
                            runn(lines, slot=0, tag=tag), runn(lines, slot=1, tag=tag)])
+        # expiry does not depend on the presentation either: a row overdue for the sweep, then a run long enough to sweep it
+        for name, extra in pres:
+            base = rng.choice([[], ['-U']])
+            a_old = 0x4b1800 + rng.getrandbits(8)
+            pool = []
+            for a in [0x4b1900 + rng.getrandbits(8) for _ in range(2)]:
+                pool += other_format_frames(a, rng)
+            lines = [rng.choice(pool) for _ in range(rng.randrange(13, 30))]
+            tag = {'pair': 'c19', 'opt': name + '.sweep'}
+            old = df17(5, a_old, me_ident(4, 1, callsign_codes('OLDROW')))
+            groups.append([{'c': 'reset', 'opts': ['-i', 'Q', '-d', '1'] + base, 'slot': 0},
+                           {'c': 'reset', 'opts': (['-i', 'Q'] if name != 'i' else []) + ['-d', '1'] + base + extra, 'slot': 1},
+                           run1(old, slot=0), run1(old, slot=1), tick(2500), runn(lines, slot=0, tag=tag), runn(lines, slot=1, tag=tag)])
         # -O affects the distance only
         for obs in ('90,0', '10.5, -20.25', 'garbage'):
             lines = valid_value_frames(0x4b2000 + rep_i, rng)
@@ -2304,6 +2427,18 @@ def c19(tier):
             l = rng.choice(pool)
             g += [run1(l, slot=0, tag=tag), run1(l, slot=1, tag=tag)]
         groups.append(g)
+    # the altitude column with and without -U when surface-position squitters (which blank it) are part of the history
+    for h in range(8 if tier == 'quick' else 200):
+        a = 0x4b3800 + h
+        pool = valid_value_frames(a, rng)
+        ys, xs = cpr_encode(48.35, 11.78, 0)
+        pool += [df17(5, a, me_surface(rng.randint(5, 8), rng.getrandbits(7), 1, rng.getrandbits(7), k % 2, ys, xs)) for k in range(4)]
+        g = [reset([], slot=0), reset(['-U'], slot=1)]
+        tag = {'pair': 'c19ua', 'opt': 'U.alt'}
+        for _ in range(50):
+            l = rng.choice(pool)
+            g += [run1(l, slot=0, tag=tag), run1(l, slot=1, tag=tag)]
+        groups.append(g)
     conform(rep, 'C19', groups, maxlen=3000)
     evs = cli_pair_events(rng, 6 if tier == 'quick' else 120)
     trc = os.path.join(vlib.workdir(), 'c19cli.trace.ndjson')
@@ -2313,7 +2448,8 @@ def c19(tier):
     rep.rule = ('paired executions of the same history in two tables whose option sets differ in one named option: -i (3 variants incl. '
                 'non-quiet), -o, -c, -u (0, -1, 1000), -M, -D (full rows compared after every line, stamps excluded), -O (all but the distance), '
                 'and -U on %d random histories of valid-value DF4/5/11/17 frames for 1..3 aircraft with clock steps (the nine listed '
-                'parameters compared after every line). Histories: slices of rec/squitters.txt and generated frames. Non-trivial = paired '
+                'parameters compared after every line; with surface squitters in the history the altitude column), and whole runs that sweep an '
+                'overdue row under each presentation option. Histories: slices of rec/squitters.txt and generated frames. Non-trivial = paired '
                 'step in which the table changed' % nu)
     vlib.nt_floor(rep, 200)
     return rep
